@@ -17,7 +17,11 @@ EPS = 1e-6
 # per-attempt outcomes for a host that plays the paired accessory
 CONNECT_FAIL = {"refused", "hang"}
 VERIFY_FAIL = {"close-after-m1", "reset-after-m1", "close-after-m3", "reset-after-m3", "http-4xx", "wrong-id", "bad-sig", "bad-tag", "error-m2:2",
-               "error-m4:2", "error-m2:6", "error-m4:3", "error-m2:1", "garbage-m2", "garbage-m4", "hang-m1", "hang-m3", "unknown-controller"}
+               "error-m4:2", "error-m2:6", "error-m4:3", "error-m2:1", "garbage-m2", "garbage-m4", "hang-m1", "hang-m3", "unknown-controller",
+               "damaged-ltpk:short", "damaged-ltpk:nonhex", "damaged-ltsk:odd", "damaged-ltpk:missing"}
+# damaged-*: the accessory is honest but the stored pairing data is damaged for this attempt (hand-edited / truncated pairing file): pair-verify
+# ends with a ValueError / KeyError of the state machine instead of a protocol error
+DAMAGE = {"short": lambda v: v[:20], "nonhex": lambda v: "zz" + v[2:], "odd": lambda v: v[:-1], "missing": None}
 AUTH_OUTCOMES = {"error-m2:2", "error-m4:2", "unknown-controller"}      # the accessory reports an authentication error
 SUCCESS = {"ok", "ok-drop:0.5", "ok-drop:20", "ok-drop-resub:fin", "ok-drop-resub:reset", "ok-resub-garbage"}
 ALL_OUTCOMES = sorted(CONNECT_FAIL | VERIFY_FAIL | SUCCESS)
@@ -95,12 +99,23 @@ class ReconWorld:
             tr.attempts.append(rec)
             self.active_attempts += 1
             tr.max_active_attempts = max(tr.max_active_attempts, self.active_attempts)
+            pd = conn.pairing_data
+            clean = dict(pd)
+            if self.cur_outcome.startswith("damaged-"):
+                field, how = self.cur_outcome[len("damaged-"):].split(":")
+                key = {"ltpk": "AccessoryLTPK", "ltsk": "iOSDeviceLTSK"}[field]
+                if DAMAGE[how] is None:
+                    del pd[key]
+                else:
+                    pd[key] = DAMAGE[how](pd[key])
             try:
                 return await orig_once()
             except BaseException as e:
                 rec["exc"] = type(e).__name__
                 raise
             finally:
+                pd.clear()
+                pd.update(clean)
                 self.active_attempts -= 1
                 rec["end"] = loop.time()
                 calls = w.net.calls[rec["calls_from"]:]
@@ -140,7 +155,7 @@ class ReconWorld:
 
         def verify_policy(c):
             o = self.cur_outcome
-            if o in VERIFY_FAIL and o != "unknown-controller":
+            if o in VERIFY_FAIL and o != "unknown-controller" and not o.startswith("damaged-"):
                 return o
             return "ok"
         w.acc.verify_policy = verify_policy
@@ -322,7 +337,14 @@ class ReconWorld:
                 note = "dropped-old"
         elif name in ("close", "shutdown"):
             raised = None
-            if len(op) > 1 and op[1] == "racing":
+            if len(op) > 1 and op[1] == "after-drop":
+                # the accessory's FIN / RST has reached the socket, the event loop has not polled it yet, and the application closes the pairing
+                cur = [c for c in self.held() if c.secure and c.open and not c.peer_closed]
+                if cur:
+                    cur[-1].close(op[2])
+                    tr.lost.append(t0)
+                    note = "dropped"
+            elif len(op) > 1 and op[1] == "racing":
                 # another user of the pairing gets going in the very loop iterations in which close()/shutdown() is suspended
                 racer = op[2] if len(op) > 2 else "call"
                 if racer == "zc":
